@@ -1546,7 +1546,15 @@ class Translator:
             env2 = dict(env)
             n = lname(c0.func.value.id)
             env2[c0.func.value.id] = V(n, x.typ)
-            return f"let {n} : {ty(x.typ)} := " + " ".join([c["lean"], x.term] + args) + "\n" + self.block(rest, env2, frame)
+            text = f"let {n} : {ty(x.typ)} := " + " ".join([c["lean"], x.term] + args) + "\n"
+            apk = env.get(("alias", c0.func.value.id))
+            if apk is not None:
+                # the object was appended to this list before: the list's last element is the same object
+                curp = self.read_place(apk, env2, st)
+                env2, line = self.bind(ast.parse(apk, mode="eval").body, V(f"(PyRt.setLast {curp.term} {n})", self.places[apk][2]), env2, st)
+                env2[("alias", c0.func.value.id)] = apk
+                text += line + "\n"
+            return text + self.block(rest, env2, frame)
         if (isinstance(c0, ast.Call) and isinstance(c0.func, ast.Attribute) and c0.func.attr == "append" and len(c0.args) == 1
                 and not c0.keywords and isinstance(c0.func.value, ast.Name) and c0.func.value.id in env
                 and env[c0.func.value.id].typ.startswith("List ") and c0.func.value.id in self.spec.get("locals", {})):
@@ -1612,6 +1620,10 @@ class Translator:
                 typ = self.places[pk][2]
                 new = V(f"({cur.term} ++ [{self.coerce(v, elem_type(typ), st)}])", typ)
                 env2, line = self.bind(st.value.func.value, new, env, st)
+                for k_ in [k_ for k_ in env2 if isinstance(k_, tuple) and k_[0] == "alias" and env2[k_] == pk]:
+                    del env2[k_]
+                if pk in self.spec.get("obj_lists", {}) and isinstance(arg, ast.Name):
+                    env2[("alias", arg.id)] = pk        # the list's last element IS this object: a later mutation shows in both
                 return line + "\n" + self.block(rest, env2, frame)
             return self.with_hoists(hs, env, frame, inner)
         if (isinstance(c0, ast.Call) and isinstance(c0.func, ast.Attribute) and c0.func.attr == "update" and len(c0.args) == 1
@@ -2020,16 +2032,23 @@ class Translator:
         cur = self.read_place(pk, env, st)
         env_b = dict(env)
         env_b[nm] = V(lname(nm), et)
-        of = ObjLoopFrame(self, nm)
-        saved = self.raises
-        body = self.block(list(st.body), env_b, of)
-        if self.raises and not saved:
-            self.bad(st, "a loop over an object list whose body may raise")
         o = self.fresh("py_o")
+        saved = (self.raises, self.tmp)
+        self.raises = False
+        body = self.block(list(st.body), env_b, ObjLoopFrame(self, nm, False))
+        body_raises = self.raises
+        if body_raises:
+            # the body can raise: each round ends in (the object as it is then, how it ended)
+            body = self.block(list(st.body), env_b, ObjLoopFrame(self, nm, True))
+        self.raises = saved[0] or body_raises
         env2, line = self.bind(st.iter, V(f"{o}.1", self.places[pk][2]), env, st)
         ret = self.s_Return(ast.copy_location(ast.Return(value=None), st), [], env2, frame)
-        return (f"let {o} := PyRt.forObjs {cur.term} (fun ({lname(nm)} : {ty(et)}) =>\n{ind(body, 4)})\n{line}\n"
-                f"if {o}.2 then (\n{ind(ret)})\nelse (\n{ind(self.block(rest, env2, frame))})")
+        if not body_raises:
+            return (f"let {o} := PyRt.forObjs {cur.term} (fun ({lname(nm)} : {ty(et)}) =>\n{ind(body, 4)})\n{line}\n"
+                    f"if {o}.2 then (\n{ind(ret)})\nelse (\n{ind(self.block(rest, env2, frame))})")
+        return (f"let {o} := PyRt.forObjsE {cur.term} (fun ({lname(nm)} : {ty(et)}) =>\n{ind(body, 4)})\n{line}\n"
+                f"PyRt.tryE {o}.2 (fun py_e => {frame.raise_('py_e', env2)}) (fun py_r =>\n"
+                + ind(f"if py_r then (\n{ind(ret)})\nelse (\n{ind(self.block(rest, env2, frame))})") + ")")
 
     def s_For(self, st, rest, env, frame):
         if self.key(st.iter) in self.spec.get("obj_lists", {}):
@@ -2301,18 +2320,23 @@ class JoinFrame(Frame):
 
 
 class ObjLoopFrame(Frame):
-    """the body of a loop over a list of objects (`Translator.obj_loop`): ends in (the object afterwards, returned?)"""
-    def __init__(self, tr, nm):
-        self.tr, self.nm = tr, nm
+    """the body of a loop over a list of objects (`Translator.obj_loop`): ends in (the object afterwards, returned?) — when the
+    body can raise, in (the object as it is then, `.ok returned?` / `.error e`)"""
+    def __init__(self, tr, nm, raising):
+        self.tr, self.nm, self.raising = tr, nm, raising
 
-    def fall(self, env): return f"({env[self.nm].term}, false)"
+    def fall(self, env):
+        return f"({env[self.nm].term}, (Except.ok false : Except PyRt.Err Bool))" if self.raising else f"({env[self.nm].term}, false)"
 
     def ret(self, val, env, node):
         if val.typ != "NoneType":
             self.tr.bad(node, "`return <value>` inside a loop over an object list")
-        return f"({env[self.nm].term}, true)"
+        return f"({env[self.nm].term}, (Except.ok true : Except PyRt.Err Bool))" if self.raising else f"({env[self.nm].term}, true)"
 
-    def raise_(self, e, env): self.tr.bad(None, "a loop over an object list whose body may raise")
+    def raise_(self, e, env):
+        self.tr.raises = True
+        return f"({env[self.nm].term}, (Except.error {e} : Except PyRt.Err Bool))"
+
     def cont(self, env, node): return self.fall(env)
     def brk(self, env, node): self.tr.bad(node, "break inside a loop over an object list")
 
